@@ -418,13 +418,19 @@ def do_action(case, image):
 
 
 def own_fd(keep):
-    """1 if the CALLER's PIL image currently holds an open descriptor (Pillow closes it by
-    itself once a single-frame image has been loaded — that is not the library's doing)."""
-    fp = getattr(keep, "fp", None)
-    try:
-        return int(fp is not None and not fp.closed and fp.fileno() >= 0)
-    except Exception:
-        return 0
+    """Number of descriptors currently held by the CALLER's PIL image (Pillow closes / drops them
+    by itself, e.g. once a single-frame image has been loaded, and keeps the file of a
+    multi-frame image in `_fp` while `fp` is None between loads — none of that is the
+    library's doing)."""
+    nos = set()
+    for attr in ("fp", "_fp"):
+        f = getattr(keep, attr, None)
+        try:
+            if f is not None and not f.closed and f.fileno() >= 0:
+                nos.add(f.fileno())
+        except Exception:
+            pass
+    return len(nos)
 
 
 def one_fault_run(case, idx, k, exc):
